@@ -61,7 +61,6 @@ theorem scanGen_eq_model (acc : Option (Nat √ó ‚Ñö)) (l : List (Nat √ó Option ‚Ñ
         obtain ‚ü®k', b‚ü© := kb
         simp only [Gen.peakBetter, Labels.bestPeakFrom, decide_eq_true_eq]
 
-
 /-! ### wrapped / fractional coordinates of a path -/
 
 /-- every wrapped coordinate lies inside the grid along ITS OWN axis and is congruent to the original -/
